@@ -492,9 +492,17 @@ func c02YieldOperand(ctx *core.Ctx, idx int) core.Result {
 			ast.ArrayLit{Elems: []ast.Node{nm("seen"), nm(v)}}}
 	}
 	var stmts []ast.Node
-	kind := idx % 6
-	names := []string{"global", "captured", "local", "parameter", "constant", "expression"}
+	kind := idx % 7
+	names := []string{"global", "captured", "local", "parameter", "constant", "expression", "global-reread"}
 	switch kind {
+	case 6: // the generator itself re-reads the global the body assigned, touching no other global in between
+		var g ast.Node
+		if r.Chance(1, 2) {
+			g = ast.Block{Stmts: []ast.Node{ast.Yield{X: nm("n")}, ast.Yield{X: nm("n")}, ast.Yield{X: ast.Binary{Op: "+", L: nm("n"), R: nm("n")}}}}
+		} else {
+			g = ast.Block{Stmts: []ast.Node{ast.Assign{Name: "i", Value: il(0)}, ast.While{Cond: ast.Binary{Op: "<", L: nm("i"), R: il(3)}, Body: ast.Block{Stmts: []ast.Node{ast.Yield{X: nm("n")}, ast.Assign{Name: "i", Value: ast.Binary{Op: "+", L: nm("i"), R: il(1)}}}}}}}
+		}
+		stmts = []ast.Node{ast.Assign{Name: "n", Value: il(1)}, ast.Assign{Name: "h", Value: ast.FuncLit{Body: g}}, ast.Block{Stmts: loop("n")}}
 	case 0: // bare global, the (top level) body assigns it
 		stmts = []ast.Node{ast.Assign{Name: "n", Value: il(1)}, ast.Assign{Name: "emit", Value: ast.FuncLit{Body: ast.Yield{X: nm("n")}}}, hdef(nil), ast.Block{Stmts: loop("n")}}
 	case 1: // captured variable of the function that runs the loop
@@ -529,7 +537,7 @@ func c02YieldOperand(ctx *core.Ctx, idx int) core.Result {
 		stmts = []ast.Node{ast.Assign{Name: "emit", Value: ast.FuncLit{Params: params, Body: eb}}, hdef(args), ast.Assign{Name: "q", Value: il(3)}, ast.Block{Stmts: loop("q")}}
 	}
 	stmts = append([]ast.Node{zdeep}, stmts...)
-	// (the operand kind is idx%6: the mode must not be a function of idx%2)
+	// (the operand kind is idx%7: the mode must not be a function of it)
 	opts := diffOpts{DoOut: (idx/6)%4 != 3, Stress: stressModes[(idx/24)%len(stressModes)], Residue: true}
 	d := runDiff(stmts, opts)
 	res := diffCase("C02", stmts, opts, d, map[string]any{"family": "yieldoperand", "operand": names[kind], "recursion_between_yields": deep})
